@@ -1046,9 +1046,18 @@ DOMServices::isNodeAfter(
             const XalanNode&    node1,
             const XalanNode&    node2)
 {
+    // The document node is before any other node of the document.  It has
+    // no owner document, and no parent...
+    if (node2.getNodeType() == XalanNode::DOCUMENT_NODE)
+    {
+        return &node1 != &node2;
+    }
+    else if (node1.getNodeType() == XalanNode::DOCUMENT_NODE)
+    {
+        return false;
+    }
+
     assert(node1.getOwnerDocument() == node2.getOwnerDocument());
-    assert(node1.getNodeType() != XalanNode::DOCUMENT_NODE &&
-            node2.getNodeType() != XalanNode::DOCUMENT_NODE);
 
     if (node1.isIndexed() == true)
     {
